@@ -1,6 +1,7 @@
 package an
 
 import (
+	"go/token"
 	"go/types"
 	"sort"
 	"strings"
@@ -327,7 +328,16 @@ func (p *Program) buildRetSummary(fn *ssa.Function, depth int) *RetSummary {
 			if !fi.resultMayBe(ret.Results[i], ret, isErr) {
 				continue
 			}
-			exported := fi.exportFacts(ret, i)
+			var extra []Fact
+			if isBool {
+				// what the returned condition itself implies when it is true
+				ti, possible := fi.trueImplies(ret.Results[i], 0)
+				if !possible {
+					continue
+				}
+				extra = ti
+			}
+			exported := fi.exportFacts(ret, i, extra...)
 			if first {
 				acc, first = exported, false
 			} else {
@@ -350,10 +360,88 @@ func (p *Program) buildRetSummary(fn *ssa.Function, depth int) *RetSummary {
 	return s
 }
 
+// trueImplies returns facts that hold whenever the boolean value v is true
+// (beyond the facts of the block that uses it): v itself, and for a phi (the
+// SSA form of a && b, of if/else chains that assign a result, ...) the facts
+// common to all incoming edges over which v can be true. possible is false if
+// v is the constant false on every path.
+func (fi *FuncInfo) trueImplies(v ssa.Value, depth int) (out []Fact, possible bool) {
+	if depth > 6 {
+		return nil, true
+	}
+	t := fi.Term(v)
+	if c, ok := t.IsConst(); ok {
+		return nil, c == "true"
+	}
+	switch x := v.(type) {
+	case *ssa.Phi:
+		var acc map[string]Fact
+		first := true
+		for i, e := range x.Edges {
+			pred := x.Block().Preds[i]
+			sub, ok := fi.trueImplies(e, depth+1)
+			if !ok {
+				continue
+			}
+			cand := map[string]Fact{}
+			for k, f := range fi.factsIn[pred] {
+				cand[k] = f
+			}
+			for _, f := range fi.edgeFacts[[2]int{pred.Index, x.Block().Index}] {
+				cand[f.Key()] = f
+			}
+			for _, f := range sub {
+				cand[f.Key()] = f
+			}
+			if first {
+				acc, first = cand, false
+			} else {
+				for k := range acc {
+					if _, ok := cand[k]; !ok {
+						delete(acc, k)
+					}
+				}
+			}
+		}
+		if first {
+			return nil, false
+		}
+		var keys []string
+		for k := range acc {
+			keys = append(keys, k)
+		}
+		sort.Strings(keys)
+		for _, k := range keys {
+			out = append(out, acc[k])
+		}
+		return out, true
+	case *ssa.UnOp:
+		if x.Op == token.NOT {
+			f := mkFact(fi.Term(x.X), true)
+			out = append(out, f)
+			return out, true
+		}
+	}
+	f := mkFact(t, false)
+	out = append(out, f)
+	out = append(out, fi.expandFact(f, depth)...)
+	return out, true
+}
+
 // exportFacts rewrites the facts at a return site into the callee's interface
 // vocabulary and drops those that mention callee-local state.
-func (fi *FuncInfo) exportFacts(ret *ssa.Return, skip int) map[string]Fact {
+func (fi *FuncInfo) exportFacts(ret *ssa.Return, skip int, extra ...Fact) map[string]Fact {
 	facts := fi.FactsAt(ret)
+	if len(extra) > 0 {
+		all := FactSet{}
+		for k, f := range facts {
+			all[k] = f
+		}
+		for _, f := range extra {
+			all[f.Key()] = f
+		}
+		facts = all
+	}
 	// replacement map: returned values and their fields
 	repl := map[string]*Term{}
 	for i, rv := range ret.Results {
